@@ -183,7 +183,7 @@ def programs_noncontig(tier):
         F("e", T_enum(e4), [(8, 2), (62 - 40, 2)]),        # enum over two ranges
         F("s", T_i(8), [(32, 4), (40, 4)]),                # signed non-contiguous
         F("k", T_u(3), [(16, 1), (18, 2)], array=(2, 4)),  # 16,18,19 / 20,22,23
-    ])], props=("C04", "C05", "C08", "C16", "C03")))
+    ])], props=("C04", "C05", "C08", "C16", "C03", "C12")))
     progs.append(Program("nc32a", structs=[S("nc32a", 32, [
         F("x", T_u(8), [(4, 4), (0, 4)], array=(4, 8)),       # array element with a DESCENDING list (high nibble first)
     ])], props=("C04", "C03", "C16", "C13")))
@@ -195,7 +195,7 @@ def programs_noncontig(tier):
         F("t", T_u(12), [(0, 4), (60, 8)]),                # range crossing bit 64
         F("h", T_u(64), [(96, 32), (64, 28), (92, 4)]),    # three ranges, native type, top bit
         F("g", T_i(16), [(8, 8), (24, 8)]),
-    ])], props=("C04", "C05", "C16")))
+    ])], props=("C04", "C05", "C16", "C12")))
     progs.append(Program("nc24", structs=[S("nc24", 24, [
         F("p", T_u(5), [(23, 1), (0, 4)]),                 # top exposed bit first
         F("q", T_u(8), [(4, 2), (8, 2), (12, 2), (16, 2)]),
@@ -419,6 +419,10 @@ def programs_builder(tier):
         F("k", T_u(8), (0, 8), access="r"),        # read-only field with non-zero default bits, gap-free layout
         F("v", T_u(4), (8, 4), array=(2, None)),
     ], default=Default(0x5AC3))], props=("C13", "C14", "C17")))
+    progs.append(Program("bl64", structs=[S("bl64", 64, [
+        F("en", T_bool(), (0, 1), array=(24, 2)),              # 24 elements (> 16), stride 2: bits 0,2,..,46
+        F("hi", T_u(16), (48, 16)),
+    ], default=Default(0xAAAA_0000_0000_0000 >> 0))], props=("C13", "C14", "C03")))
     progs.append(Program("bl9", structs=[S("bl9", 9, [
         F("x", T_u(4), [(0, 1), (2, 1), (4, 1), (6, 1)], array=(2, 1), access="w"),
         F("t", T_bool(), (8, 1)),
@@ -453,6 +457,11 @@ def programs_access(tier):
     progs.append(Program("ac16", structs=[S("ac16", 16, [
         F("a", T_u(4), (0, 4), access="r"), F("b", T_u(4), (4, 4), access="w"), F("c", T_u(4), (8, 4), access=""),
         F("d", T_u(4), (12, 4), access="rw")])], props=("C17", "C14")))
+    for acc_ in ("r", "w", ""):
+        nm = acc_ or "none"
+        progs.append(Program(f"ac32{nm}", structs=[S(f"ac32{nm}", 32, [F("all", T_u(32), (0, 32), access=acc_)], default=Default(0x12345678))],
+                             props=("C17", "C14")))
+    progs.append(Program("ac64r", structs=[S("ac64r", 64, [F("all", T_i(64), (0, 64), access="r")])], props=("C17", "C14")))
     progs.append(Program("ac8ro", structs=[S("ac8ro", 8, [
         F("a", T_u(4), (0, 4), access="r"), F("b", T_bool(), (7, 1), access="r")], default=Default(0x81))], props=("C17", "C14")))
     return progs
@@ -471,6 +480,7 @@ def programs_c14(tier):
     add("koverlaparr", 16, [F("a", T_u(4), [(0, 2), (4, 2)], array=(2, 4))], Default(0))          # element 1 overlaps element 0 -> none
     add("kselfov", 16, [F("a", T_u(8), [(0, 4), (2, 4)])], Default(0), extra=("C16",))             # self-overlapping range list -> none
     add("kselfov2", 32, [F("a", T_u(12), [(8, 8), (12, 4)]), F("b", T_u(8), (24, 8))], Default(0), extra=("C16",))
+    add("kselfov3", 16, [F("f", T_u(12), [(8, 8), (12, 4)])], Default(0), extra=("C16",))           # overlap touching the top bit
     add("krogap", 8, [F("a", T_u(4), (0, 4)), F("r", T_u(4), (4, 4), access="r")])                 # read-only bits uncovered, no default -> none
     add("krogapdef", 8, [F("a", T_u(4), (0, 4)), F("r", T_u(4), (4, 4), access="r")], Default(0xA0), extra=("C13",))
     add("karb", 12, [F("a", T_u(4), (0, 4)), F("b", T_u(8), (4, 8))], extra=("C13", "C11"))       # arbitrary base complete -> builder
